@@ -369,7 +369,7 @@ impl Group for Trace {
         "c16.trace"
     }
     fn rule(&self) -> &'static str {
-        "a real loopback server whose Extensions were built by random add/remove sequences on the Prime, Package, Post and Prepare(predicate) lists plus optionally a path-bound Prepare; marker extensions log their tag; the body returned by the Prepare starts with a generated `!> ` line naming marker Present extensions that log their arguments; one GET; the log is compared with the model's trace (all Primes in list order, the chosen Prepare, Present by line order with exact arguments, all Packages, all Posts); non-trivial = at least 4 entries"
+        "a real loopback server whose Extensions were built by random add/remove sequences on the Prime, Package, Post and Prepare(predicate) lists plus optionally a path-bound Prepare; marker extensions log their tag; the body returned by the Prepare starts with a generated `!> ` line naming marker Present extensions that log their arguments; (sometimes the reply is empty, or empty after the `!> ` line); one GET; the log is compared with the model's trace (all Primes in list order, the chosen Prepare, Present by line order with exact arguments, all Packages, all Posts); non-trivial = at least 4 entries"
     }
     fn parallel(&self) -> bool {
         false
@@ -392,7 +392,12 @@ impl Group for Trace {
                 let exts: Vec<(String, Vec<String>)> = (0..rng.range(0, 3)).map(|_| ((*rng.pick(&names)).to_owned(), (0..rng.below(3)).map(|_| gen_token(rng).replace("&>", "x")).collect())).collect();
                 let crlf = rng.chance(1, 2);
                 let mut body = if exts.is_empty() { b"plain".to_vec() } else { render_line(rng, &exts, crlf) };
-                body.extend_from_slice(b"content");
+                // "once per response" holds for responses without a body too: an empty reply, or nothing after the `!> ` line
+                match rng.below(6) {
+                    0 => body.clear(),
+                    1 if !exts.is_empty() => {}
+                    _ => body.extend_from_slice(b"content"),
+                }
                 format!("c16.trace {pr} {pk} {po} {pf} {} {} {}", b01(single), hex(&body), list([hex(b"m1"), hex(b"m2")]))
             })
             .collect()
